@@ -161,7 +161,9 @@ def c04_b(ctx):
         guarded = False
         if isinstance(loop, ast.While):
             t = ctx.term(f, loop.test, cfg_of(f).by_stmt[id(loop)])
-            guarded = contains(t, 'self._allow_submit(*_)')
+            guarded = contains(t, 'self._allow_submit(*_)') and any(
+                pol and match(g, pattern('self._allow_submit(*_)')) is not None
+                for (g, pol, _) in ctx.guards(f, n))
         in_iter = f.cls is not None and f.cls.is_subclass_of(pi) and f.name == 'iterate'
         ctx.check(guarded and in_iter, f, 'submit under _allow_submit',
                   'submit inside `while self._allow_submit(...)` of iterate',
@@ -928,3 +930,14 @@ def c04_m(ctx):
     n = parallelism_sweep(ctx)
     if n < 5:
         ctx.undecided('expected at least 5 reads of max_parallel_batches, found {}'.format(n))
+
+
+@obligation('C04-n', 'T8', 'the predicates the submission gate reads mean what their names say: '
+            'has_pending = (number of pending batches > 0), counted over the pending map (shared '
+            'with C11-n)', floor=3,
+            necessary='the gate compares max_parallel_batches with num_pending: a count that is '
+                      'off by one, or a flipped has_pending, lets one batch too many (or none) '
+                      'be outstanding')
+def c04_n(ctx):
+    from . import C11
+    C11.c11_n(ctx)
